@@ -203,6 +203,31 @@ where for<'x> &'x T: IntOps<T> {
     }
 }
 
+/// `gcd`, `gcdx`, `lcm`, `gcd` with swapped arguments of the real code, on a helper thread with a time limit:
+/// a broken Euclidean division makes the generic loops spin forever. `None` = no answer within 5 s
+/// (the ring is then marked as hung and its remaining gcd cases are skipped; the thread is leaked).
+type Gcds<R> = (Option<R>, Option<(R, R, R)>, Option<R>, Option<R>);
+static HUNG: std::sync::Mutex<Vec<String>> = std::sync::Mutex::new(Vec::new());
+fn timed_gcds<R>(s: &mut Sink, ring: &str, inp: &str, a: &R, b: &R) -> Option<Gcds<R>>
+where R: EucRing + Send + 'static, for<'x> &'x R: EucRingOps<R> {
+    if HUNG.lock().unwrap().iter().any(|r| r == ring) { s.count("skipped.gcd-after-hang"); return None }
+    let (a2, b2) = (a.clone(), b.clone());
+    // (private variant of `yv::guard_timeout` with a small stack: the spawn is on the hot path)
+    let (tx, rx) = std::sync::mpsc::channel();
+    std::thread::Builder::new().stack_size(1 << 20).spawn(move || {
+        let t = (guard(|| R::gcd(&a2, &b2)), guard(|| R::gcdx(&a2, &b2)), guard(|| R::lcm(&a2, &b2)), guard(|| R::gcd(&b2, &a2)));
+        let _ = tx.send(t);
+    }).unwrap();
+    match rx.recv_timeout(std::time::Duration::from_secs(5)).ok() {
+        Some(t) => Some(t),
+        _ => {
+            HUNG.lock().unwrap().push(ring.to_string());
+            s.oracle(false, "gcd/gcdx/lcm terminate (no answer within 5 s)", inp, "timeout");
+            None
+        }
+    }
+}
+
 // ------------------------------------------------------------------------------------------------
 // quadratic integers (D = -1, -3); reference arithmetic on pairs of BigInt
 // ------------------------------------------------------------------------------------------------
@@ -239,7 +264,7 @@ struct QuadCtx<'a, R> {
 }
 
 fn quad_pair<R>(s: &mut Sink, c: &QuadCtx<R>, ap: &P, bp: &P)
-where R: EucRing + DivRound + Debug, for<'x> &'x R: EucRingOps<R> {
+where R: EucRing + DivRound + Debug + Send + 'static, for<'x> &'x R: EucRingOps<R> {
     let (Some(a), Some(b)) = ((c.mk)(ap), (c.mk)(bp)) else { return };
     let d = c.d;
     let ring = &c.ring;
@@ -281,10 +306,8 @@ where R: EucRing + DivRound + Debug, for<'x> &'x R: EucRingOps<R> {
         }
     }
 
-    let g = guard(|| R::gcd(&a, &b));
-    let gx = guard(|| R::gcdx(&a, &b));
     let both_zero = pz(ap) && pz(bp);
-    let l = guard(|| R::lcm(&a, &b));
+    let Some((g, gx, l, g2)) = timed_gcds(s, ring, &inp, &a, &b) else { return };
     if g.is_none() || gx.is_none() || (l.is_none() && !both_zero) { unexpected(s, "gcd/gcdx/lcm"); }
     s.case(&format!("{} gcd {} {}", ring, ptxt(ap), ptxt(bp)), &rt(&g), nontriv);
     s.case(&format!("{} gcdx {} {}", ring, ptxt(ap), ptxt(bp)),
@@ -295,8 +318,8 @@ where R: EucRing + DivRound + Debug, for<'x> &'x R: EucRingOps<R> {
         s.oracle(qdivides(d, &gp, ap) && qdivides(d, &gp, bp), "gcd(a,b) divides a and b", &inp, &format!("g={}", ptxt(&gp)));
         let n = guard(|| g.normalized());
         s.oracle(n.as_ref() == Some(g), "gcd(a,b) is the normalised associate (normalized(g) = g)", &inp, &format!("g={}", ptxt(&gp)));
-        if let Some(g2) = guard(|| R::gcd(&b, &a)) {
-            s.oracle(&g2 == g, "gcd(a,b) = gcd(b,a)", &inp, &format!("{} vs {}", ptxt(&gp), ptxt(&un(&g2))));
+        if let Some(g2) = &g2 {
+            s.oracle(g2 == g, "gcd(a,b) = gcd(b,a)", &inp, &format!("{} vs {}", ptxt(&gp), ptxt(&un(g2))));
         }
     }
     if let Some((d0, x, y)) = &gx {
@@ -317,7 +340,7 @@ where R: EucRing + DivRound + Debug, for<'x> &'x R: EucRingOps<R> {
 }
 
 fn quad_unary<R>(s: &mut Sink, c: &QuadCtx<R>, ap: &P)
-where R: EucRing + DivRound + Debug, for<'x> &'x R: EucRingOps<R> {
+where R: EucRing + DivRound + Debug + Send + 'static, for<'x> &'x R: EucRingOps<R> {
     let Some(a) = (c.mk)(ap) else { return };
     let d = c.d;
     let ring = &c.ring;
@@ -368,7 +391,7 @@ where R: EucRing, for<'x> &'x R: EucRingOps<R> {
 }
 
 fn gen_pair<R>(s: &mut Sink, c: &GenCtx<R>, a: &R, b: &R)
-where R: EucRing + Debug, for<'x> &'x R: EucRingOps<R> {
+where R: EucRing + Debug + Send + 'static, for<'x> &'x R: EucRingOps<R> {
     let ring = &c.ring;
     let t = |x: &R| (c.txt)(x);
     let (at, bt) = (t(a), t(b));
@@ -398,9 +421,7 @@ where R: EucRing + Debug, for<'x> &'x R: EucRingOps<R> {
         s.oracle((c.enorm)(r) < (c.enorm)(b), "remainder is zero or of strictly smaller norm than b", &inp, &format!("r={}", t(r)));
     }
     let both_zero = a.is_zero() && b.is_zero();
-    let g = guard(|| R::gcd(a, b));
-    let gx = guard(|| R::gcdx(a, b));
-    let l = guard(|| R::lcm(a, b));
+    let Some((g, gx, l, g2)) = timed_gcds(s, ring, &inp, a, b) else { return };
     if g.is_none() || gx.is_none() || (l.is_none() && !both_zero) {
         unexpected(s, "gcd/gcdx/lcm");
         if c.overflow_ok { return }
@@ -414,8 +435,7 @@ where R: EucRing + Debug, for<'x> &'x R: EucRingOps<R> {
         if let Some(g) = &g {
             out.push((exact_div(a, g) && exact_div(b, g), "gcd(a,b) divides a and b", format!("g={}", t(g))));
             out.push((&g.normalized() == g, "gcd(a,b) is the normalised associate (normalized(g) = g)", format!("g={}", t(g))));
-            let g2 = R::gcd(b, a);
-            out.push((&g2 == g, "gcd(a,b) = gcd(b,a)", format!("{} vs {}", t(g), t(&g2))));
+            if let Some(g2) = &g2 { out.push((g2 == g, "gcd(a,b) = gcd(b,a)", format!("{} vs {}", t(g), t(g2)))); }
         }
         if let Some((d0, x, y)) = &gx {
             let lhs = &(x * a) + &(y * b);
@@ -443,7 +463,7 @@ where R: EucRing + Debug, for<'x> &'x R: EucRingOps<R> {
 }
 
 fn gen_unary<R>(s: &mut Sink, c: &GenCtx<R>, a: &R)
-where R: EucRing + Debug, for<'x> &'x R: EucRingOps<R> {
+where R: EucRing + Debug + Send + 'static, for<'x> &'x R: EucRingOps<R> {
     let ring = &c.ring;
     let t = |x: &R| (c.txt)(x);
     let at = t(a);
@@ -597,7 +617,7 @@ where for<'x> &'x T: IntOps<T> {
 }
 
 fn run_quad<R>(s: &mut Sink, c: &QuadCtx<R>, vals: &[P], max_pairs: usize, r: &mut Rng)
-where R: EucRing + DivRound + Debug, for<'x> &'x R: EucRingOps<R> {
+where R: EucRing + DivRound + Debug + Send + 'static, for<'x> &'x R: EucRingOps<R> {
     for a in vals { guarded_case(s, &format!("{} unary {}", c.ring, ptxt(a)), |s| quad_unary(s, c, a)); }
     let all = vals.len() * vals.len();
     for a in vals {
@@ -622,7 +642,7 @@ where R: EucRing + DivRound + Debug, for<'x> &'x R: EucRingOps<R> {
 }
 
 fn run_gen<R>(s: &mut Sink, c: &GenCtx<R>, vals: &[R], max_pairs: usize, r: &mut Rng)
-where R: EucRing + Debug, for<'x> &'x R: EucRingOps<R> {
+where R: EucRing + Debug + Send + 'static, for<'x> &'x R: EucRingOps<R> {
     for a in vals { guarded_case(s, &format!("{} unary", c.ring), |s| gen_unary(s, c, a)); }
     let all = vals.len() * vals.len();
     for a in vals {
